@@ -198,6 +198,14 @@ func (g *Gen) qer(id uint32, gbr bool) pfcpx.QER {
 
 		q.ULGBR = 1 + uint64(g.R.Int63n(int64(q.ULMBR)))
 		q.DLGBR = 1 + uint64(g.R.Int63n(int64(q.DLMBR)))
+
+		// a guaranteed rate in one direction only: the other direction carries no rate at all (unmetered)
+		switch g.R.Intn(8) {
+		case 0:
+			q.DLMBR, q.DLGBR = 0, 0
+		case 1:
+			q.ULMBR, q.ULGBR = 0, 0
+		}
 	} else {
 		q.NoGBR = g.R.Intn(2) == 0
 
